@@ -200,6 +200,9 @@ func c14Directed(c *core.Ctx) bool {
 }
 
 func (c14) RunCase(c *core.Ctx) {
+	if c.Case%97 == 23 && !w10(c, "C14") {
+		return
+	}
 	if c.Case%300 == 7 && !c14Directed(c) {
 		return
 	}
